@@ -16,8 +16,8 @@ import (
 )
 
 var (
-	prDamps = []float64{0.5, 0.85, 0.99}
-	prTols  = []float64{1e-6, 1e-10}
+	prDamps = []float64{0.1, 0.3, 0.5, 0.7, 0.85, 0.95, 0.99}
+	prTols  = []float64{1e-3, 1e-6, 1e-8, 1e-10, 1e-12}
 )
 
 // prBound is the distance to the fixed point implied by the stopping rule
@@ -245,6 +245,15 @@ func genHITS(g *vlib.G) {
 	}
 }
 
+// hitsYields bounds the wait for HITS on the edgeless graph in scheduler
+// yields, never in time: with GOMAXPROCS=1 every runtime.Gosched of the
+// waiting goroutine hands the processor to the HITS goroutine, which needs
+// well under a microsecond of it when it terminates at all. A false alarm
+// would need that goroutine to be preempted before it has run for a
+// microsecond in each of 400 consecutive turns, whatever the load of the
+// machine.
+const hitsYields = 400
+
 // genHITSEdgeless is the only case that calls HITS on a graph without edges.
 // On the unrepaired code the first normalisation divides by zero, every score
 // becomes NaN and the loop never ends, so the call runs in its own goroutine
@@ -254,12 +263,12 @@ func genHITS(g *vlib.G) {
 // background until the shard exits.
 func genHITSEdgeless(g *vlib.G) {
 	g.Case("d3#0 edgeless", func(t *vlib.T) {
-		b := build(mkSpec(3, true, false, 0), 2, ordAsc)
+		b := build(mkSpec(3, true, false, 0), 2, ordAsc, contSimple)
 		done := make(chan map[int64]network.HubAuthority, 1)
 		go func() { done <- network.HITS(b.g.(graph.Directed), 1e-8) }()
 		var got map[int64]network.HubAuthority
 		finished := false
-		for i := 0; i < 50 && !finished; i++ {
+		for i := 0; i < hitsYields && !finished; i++ {
 			select {
 			case got = <-done:
 				finished = true
